@@ -62,6 +62,8 @@ Definition findCompatiblePartDuration (minPart : Z) (sds : list Z) : Z :=
 
 (* int(math.Round(d.Seconds())) for d >= 0 *)
 Definition roundSeconds (d : Z) : Z := (d + 500000000) / second.
+(* d.Round(10 * time.Microsecond) for d >= 0: half away from zero, to the resolution of EXTINF *)
+Definition round10us (d : Z) : Z := ((d + 5000) / 10000) * 10000.
 (* time.Millisecond * ceil(d / ms) for d >= 0 *)
 Definition ceilMs (d : Z) : Z := ((d + 999999) / millisecond) * millisecond.
 
@@ -375,7 +377,7 @@ Definition listed_parts (v : variant) (s : segrec) : list part :=
   match v with LL => sg_parts s | _ => [] end.
 
 Definition targetDuration (segs : list segrec) : Z :=
-  fold_left (fun acc s => Z.max acc (roundSeconds (sg_dur s))) segs 0.
+  fold_left (fun acc s => Z.max acc (roundSeconds (round10us (sg_dur s)))) segs 0.
 
 Definition partTargetDuration (v : variant) (segs : list segrec) (openparts : list part) : Z :=
   let m1 := fold_left (fun acc s =>
@@ -437,36 +439,44 @@ Definition part_finalize (p : part) (tracks : list trk) (stracks : list nat) (en
   | [] => (p, tracks)
   end.
 
+(* ---- stream-level components of the rotations (pure functions of the stream) ---- *)
+
+(* muxerStream.rotateParts, stream part: [p] is the finalized part *)
+Definition srot_parts (v : variant) (s : stream) (seg : segrec) (p : part) (nextDTS : Z)
+           (createNew : bool) : stream * bool :=
+  let x := st_mut s in
+  let nextPartID := x_nextPart x + 1 in
+  let seg' := sg_with_parts seg (sg_parts seg ++ [p]) in
+  let openpart' := if createNew then Some (new_part nextPartID nextDTS) else None in
+  let pt := partTargetDuration v (x_segments x) (listed_parts v seg') in
+  let '(parttarget', bump) :=
+    if st_leading s then
+      if x_parttarget x =? 0 then (pt, false)
+      else if pt =? x_parttarget x then (x_parttarget x, false) else (pt, true)
+    else (x_parttarget x, false) in
+  (st_with s {| x_nextSeg := x_nextSeg x; x_nextPart := nextPartID;
+                x_segments := x_segments x; x_open := Some seg';
+                x_openpart := openpart'; x_init := x_init x;
+                x_delcount := x_delcount x; x_target := x_target x;
+                x_parttarget := parttarget'; x_evicted := x_evicted x |}, bump).
+
+Definition paths_rot_parts (v : variant) (t : ptable) (si : nat) (partID nextPartID : Z) : ptable :=
+  match v with
+  | LL => register (register t (KPart si partID) HPart) (KPart si nextPartID) HHint
+  | _ => t
+  end.
+
 (* muxerStream.rotateParts; [si] is the stream's index (for path keys) *)
 Definition stream_rotateParts (m : mstate) (si : nat) (nextDTS : Z) (createNew : bool) : mstate :=
   match nth_error (m_streams m) si with
   | None => m
   | Some s =>
       let v := c_variant (m_cfg m) in
-      let x := st_mut s in
-      let nextPartID := x_nextPart x + 1 in
-      match x_openpart x, x_open x with
+      match st_openpart s, st_open s with
       | Some p0, Some seg =>
           let '(p, tracks') := part_finalize p0 (m_tracks m) (st_tracks s) nextDTS in
-          let seg' := sg_with_parts seg (sg_parts seg ++ [p]) in
-          let paths' :=
-            match v with
-            | LL => register (register (m_paths m) (KPart si (p_id p)) HPart)
-                             (KPart si nextPartID) HHint
-            | _ => m_paths m
-            end in
-          let openpart' := if createNew then Some (new_part nextPartID nextDTS) else None in
-          let pt := partTargetDuration v (x_segments x) (listed_parts v seg') in
-          let '(parttarget', bump) :=
-            if st_leading s then
-              if x_parttarget x =? 0 then (pt, false)
-              else if pt =? x_parttarget x then (x_parttarget x, false) else (pt, true)
-            else (x_parttarget x, false) in
-          let s' := st_with s {| x_nextSeg := x_nextSeg x; x_nextPart := nextPartID;
-                                 x_segments := x_segments x; x_open := Some seg';
-                                 x_openpart := openpart'; x_init := x_init x;
-                                 x_delcount := x_delcount x; x_target := x_target x;
-                                 x_parttarget := parttarget'; x_evicted := x_evicted x |} in
+          let '(s', bump) := srot_parts v s seg p nextDTS createNew in
+          let paths' := paths_rot_parts v (m_paths m) si (p_id p) (st_nextPart s + 1) in
           let m1 := set_paths (set_tracks (set_stream m (upd (m_streams m) si (fun _ => s'))) tracks') paths' in
           if bump then add_err m1 else m1
       | _, _ => m   (* Go would dereference nil: unreachable, see mux_open_inv *)
@@ -476,6 +486,61 @@ Definition stream_rotateParts (m : mstate) (si : nat) (nextDTS : Z) (createNew :
 Definition unregister_parts (t : ptable) (si : nat) (parts : list part) : ptable :=
   fold_left (fun t p => unregister t (KPart si (p_id p))) parts t.
 
+(* the window after appending [seg]: gaps on the first LL rotation, eviction of the head *)
+Definition window_append (v : variant) (segcount : Z) (segs : list segrec) (seg : segrec)
+  : list segrec * option segrec :=
+  let segs1 :=
+    match v, segs with
+    | LL, [] => repeat (mkgap (sg_dur seg)) 7
+    | _, l => l
+    end ++ [seg] in
+  if segcount <? Z.of_nat (length segs1) then
+    match segs1 with
+    | d :: rest => (rest, Some d)
+    | [] => (segs1, None)
+    end
+  else (segs1, None).
+
+(* muxerStream.rotateSegments after its rotateParts call, stream part.
+   [cur_params] are the stream's tracks' current parameter ids (captured if the init is regenerated) *)
+Definition srot_segments (v : variant) (segcount : Z) (s : stream) (seg0 : segrec)
+           (nextDTS nextNTP : Z) (force : bool) (cur_params : list Z) : stream * bool * bool :=
+  let x := st_mut s in
+  let nextSegID := x_nextSeg x + 1 in
+  let seg := sg_with_end seg0 nextDTS in
+  let '(segs2, dropped) := window_append v segcount (x_segments x) seg in
+  let '(del2, ev2) := match dropped with
+                      | Some d => (x_delcount x + 1, x_evicted x ++ [d])
+                      | None => (x_delcount x, x_evicted x)
+                      end in
+  let regen := negb (variant_eqb v MPEGTS) &&
+               (match x_init x with None => true | Some _ => false end || sg_forced seg) in
+  let init' := if regen then Some cur_params else x_init x in
+  let open' := new_seg nextSegID nextNTP nextDTS (match v with MPEGTS => false | _ => force end) in
+  let openpart' := match v with MPEGTS => None | _ => Some (new_part (x_nextPart x) nextDTS) end in
+  let td := targetDuration segs2 in
+  let '(target', bump) :=
+    if st_leading s then
+      if x_target x =? 0 then (td, false)
+      else if x_target x <? td then (td, true) else (x_target x, false)
+    else (x_target x, false) in
+  (st_with s {| x_nextSeg := nextSegID; x_nextPart := x_nextPart x;
+                x_segments := segs2; x_open := Some open'; x_openpart := openpart';
+                x_init := init'; x_delcount := del2; x_target := target';
+                x_parttarget := x_parttarget x; x_evicted := ev2 |}, regen, bump).
+
+Definition paths_rot_segments (v : variant) (segcount : Z) (t : ptable) (si : nat) (segs : list segrec)
+           (seg : segrec) (regen : bool) : ptable :=
+  let paths1 := register t (KSeg si (sg_id seg)) HStatic in
+  let paths2 :=
+    match snd (window_append v segcount segs seg) with
+    | Some d =>
+        let p1 := unregister_parts paths1 si (listed_parts v d) in
+        if sg_gap d then p1 else unregister p1 (KSeg si (sg_id d))
+    | None => paths1
+    end in
+  if regen then register paths2 (KInit si) HStatic else paths2.
+
 (* muxerStream.rotateSegments *)
 Definition stream_rotateSegments (m0 : mstate) (si : nat) (nextDTS nextNTP : Z) (force : bool) : mstate :=
   let v := c_variant (m_cfg m0) in
@@ -483,49 +548,16 @@ Definition stream_rotateSegments (m0 : mstate) (si : nat) (nextDTS nextNTP : Z) 
   match nth_error (m_streams m) si with
   | None => m
   | Some s =>
-      let x := st_mut s in
-      match x_open x with
+      match st_open s with
       | None => m
       | Some seg0 =>
-          let nextSegID := x_nextSeg x + 1 in
-          let seg := sg_with_end seg0 nextDTS in
-          let segs1 :=
-            match v, x_segments x with
-            | LL, [] => repeat (mkgap (sg_dur seg)) 7
-            | _, l => l
-            end ++ [seg] in
-          let paths1 := register (m_paths m) (KSeg si (sg_id seg)) HStatic in
-          let '(segs2, paths2, del2, ev2) :=
-            if c_segcount (m_cfg m) <? Z.of_nat (length segs1) then
-              match segs1 with
-              | d :: rest =>
-                  let p1 := unregister_parts paths1 si (listed_parts v d) in
-                  let p2 := if sg_gap d then p1 else unregister p1 (KSeg si (sg_id d)) in
-                  (rest, p2, x_delcount x + 1, x_evicted x ++ [d])
-              | [] => (segs1, paths1, x_delcount x, x_evicted x)
-              end
-            else (segs1, paths1, x_delcount x, x_evicted x) in
-          let regen := negb (variant_eqb v MPEGTS) &&
-                       (match x_init x with None => true | Some _ => false end || sg_forced seg) in
-          let init' :=
-            if regen then
-              Some (map (fun ti => match nth_error (m_tracks m) ti with
-                                   | Some t => tk_params t | None => 0 end) (st_tracks s))
-            else x_init x in
-          let paths3 := if regen then register paths2 (KInit si) HStatic else paths2 in
-          let open' := new_seg nextSegID nextNTP nextDTS (match v with MPEGTS => false | _ => force end) in
-          let openpart' := match v with MPEGTS => None | _ => Some (new_part (x_nextPart x) nextDTS) end in
-          let td := targetDuration segs2 in
-          let '(target', bump) :=
-            if st_leading s then
-              if x_target x =? 0 then (td, false)
-              else if x_target x <? td then (td, true) else (x_target x, false)
-            else (x_target x, false) in
-          let s' := st_with s {| x_nextSeg := nextSegID; x_nextPart := x_nextPart x;
-                                 x_segments := segs2; x_open := Some open'; x_openpart := openpart';
-                                 x_init := init'; x_delcount := del2; x_target := target';
-                                 x_parttarget := x_parttarget x; x_evicted := ev2 |} in
-          let m1 := set_paths (set_stream m (upd (m_streams m) si (fun _ => s'))) paths3 in
+          let cur := map (fun ti => match nth_error (m_tracks m) ti with
+                                    | Some t => tk_params t | None => 0 end) (st_tracks s) in
+          let '(s', regen, bump) :=
+            srot_segments v (c_segcount (m_cfg m)) s seg0 nextDTS nextNTP force cur in
+          let paths' := paths_rot_segments v (c_segcount (m_cfg m)) (m_paths m) si (st_segments s)
+                                           (sg_with_end seg0 nextDTS) regen in
+          let m1 := set_paths (set_stream m (upd (m_streams m) si (fun _ => s'))) paths' in
           if bump then add_err m1 else m1
       end
   end.
@@ -923,17 +955,17 @@ Definition gen_media_playlist (m : mstate) (si : nat) : option mediapl :=
               pl_hint := match v with LL => Some (st_nextPart s) | _ => None end |}
   end.
 
-(* bandwidth(): (max, average) over the non-gap segments of streams[0] *)
+(* bandwidth(): (max, average) over the non-gap segments of streams[0]; zero-duration segments
+   (forced rotation at an equal DTS) are skipped, as the repaired code does (finding F8) *)
 Definition bandwidth (segs : list segrec) : res (Z * Z) :=
   match segs with
   | [] => Ok (0, 0)
   | _ =>
-      let real := filter (fun s => negb (sg_gap s)) segs in
-      if existsb (fun s => sg_dur s =? 0) real then Panic 1 else
+      let real := filter (fun s => negb (sg_gap s) && (0 <? sg_dur s)) segs in
       let mx := fold_left (fun a s => Z.max a (Z.quot (8 * sg_size s * second) (sg_dur s))) real 0 in
       let sizes := fold_left (fun a s => a + sg_size s) real 0 in
       let durs := fold_left (fun a s => a + sg_dur s) real 0 in
-      if durs =? 0 then Panic 1 else Ok (mx, Z.quot (8 * sizes * second) durs)
+      if durs <=? 0 then Ok (0, 0) else Ok (mx, Z.quot (8 * sizes * second) durs)
   end.
 
 Record mvrend := { r_isvideo : bool; r_num : Z; r_name : Z; r_lang : Z; r_default : bool; r_hasuri : bool }.
